@@ -356,7 +356,14 @@ fn size_class(rng: &mut Rng, big: usize) -> usize {
 
 fn gen_pth(rng: &mut Rng) -> Image {
     // the shipped AS1 has 288 nodes; real tracks go beyond a thousand
-    let n = if rng.chance(1, 12) { rng.usize(400, 1600) } else { size_class(rng, 400) };
+    let n = if rng.chance(1, 300) {
+        // around the 16-bit boundary of the node count (node indices are 16-bit in MCI/NLP)
+        rng.usize(65_530, 65_545)
+    } else if rng.chance(1, 12) {
+        rng.usize(400, 1600)
+    } else {
+        size_class(rng, 400)
+    };
     let mut b = b"LFSPTH".to_vec();
     b.push(rng.byte());
     b.push(rng.byte());
@@ -586,6 +593,14 @@ impl Prop for C17 {
         let kind = if rng.chance(1, 2) { Kind::Pth } else { Kind::Smx };
         let img = gen_image(rng, kind);
         let len = img.bytes.len();
+        if len > 300_000 {
+            return FileSc {
+                kind,
+                image: img.bytes,
+                op: FOp::RoundTrip { reads: vec![], offset: 0 },
+                note: "very large file".into(),
+            };
+        }
         match rng.below(10) {
             0 | 1 => {
                 let fault_free = rng.chance(1, 3);
@@ -794,6 +809,9 @@ impl Prop for C17 {
 
         match &sc.op {
             FOp::RoundTrip { reads, offset } => {
+                if len > 300_000 {
+                    rep.probe("file_beyond_65535_elements");
+                }
                 sig.u64(1);
                 sig.u64(*offset as u64);
                 sig.u64(reads.iter().fold(0u64, |a, w| a | match w {
@@ -824,15 +842,16 @@ impl Prop for C17 {
                                 }
                             },
                         }
-                        // write behind a prefix
-                        let mut wr = Cursor::new(vec![0x5Au8; *offset]);
+                        // write behind a prefix, over existing (dirty) content: an in-place overwrite
+                        // of an older file, a reused output buffer
+                        let mut wr = Cursor::new(vec![0x5Au8; *offset + len + 16]);
                         wr.set_position(*offset as u64);
                         match guarded(|| save(p, &mut wr)) {
                             Err(m) => rep.violations.push(v("file.panic", format!("{} writing behind a {}-byte prefix panicked: {}", tag, offset, m))),
                             Ok(Err(e)) => rep.violations.push(v("file.write_failed", format!("{} writing at stream offset {} failed: {}", tag, offset, e))),
                             Ok(Ok(())) => {
                                 let out = wr.into_inner();
-                                if out.len() < *offset || out[*offset..] != sc.image[..] {
+                                if out.len() < *offset + len || out[*offset..*offset + len] != sc.image[..] {
                                     rep.violations.push(v("file.offset_changed_result", format!("{} written at stream offset {} the file is {} bytes instead of {} / differs", tag, offset, out.len().saturating_sub(*offset), len)));
                                 }
                             },
@@ -842,6 +861,18 @@ impl Prop for C17 {
                 match &base {
                     Err(e) => rep.violations.push(v("file.valid_rejected", format!("{} a canonical {}-byte file was rejected: {}", tag, len, e))),
                     Ok(p) => {
+                        // overwrite in place: the output already holds other bytes
+                        let mut dirty = Cursor::new(vec![0xC3u8; len + 8]);
+                        if let Ok(Ok(())) = guarded(|| save(p, &mut dirty)) {
+                            let out = dirty.into_inner();
+                            if out[..len] != sc.image[..] {
+                                let i = out.iter().zip(sc.image.iter()).position(|(a, b)| a != b).unwrap_or(0);
+                                rep.violations.push(v(
+                                    "file.roundtrip_bytes",
+                                    format!("{} written over existing content the file differs from the one read at offset {} (byte {:#04x} of the old content shows through: something was skipped instead of written)", tag, i, out[i]),
+                                ));
+                            }
+                        }
                         let mut w = Cursor::new(Vec::new());
                         match guarded(|| save(p, &mut w)) {
                             Err(m) => rep.violations.push(v("file.panic", format!("{} writing panicked: {}", tag, m))),
